@@ -65,4 +65,14 @@ def fdivNanCorner (a b c d : Int) : Bool :=
   (parts a b).any fun px => (parts c d).any fun py =>
     [fdivClass px.1 py.1, fdivClass px.1 py.2, fdivClass px.2 py.1, fdivClass px.2 py.2].contains .nan
 
+/-- `Map::size` on `i64`: the upper bound after OFFSET and LIMIT as the code computes it (`max(0, max - offset)`, then `min(limit, ·)`),
+and the variant that subtracts with `saturating_sub` (which saturates at `i64::MIN`, not at 0) -/
+def mapSizeHi (inputMax : Int) (offset limit : Option Int) : Int :=
+  let m := match offset with | some o => max 0 (inputMax - o) | none => inputMax
+  match limit with | some l => min l m | none => m
+
+def mapSizeHiSaturating (inputMax : Int) (offset limit : Option Int) : Int :=
+  let m := match offset with | some o => clampI (inputMax - o) | none => inputMax
+  match limit with | some l => min l m | none => m
+
 end Qrlew.Total
